@@ -10,12 +10,13 @@
 (***************************************************************************)
 EXTENDS Naturals, Sequences, FiniteSets, TLC
 
-Faults == {"none", "invalid", "config", "bind", "reject", "uploads", "disconnect_create", "disconnect_wait"}
+Faults == {"none", "invalid", "config", "bind", "reject", "uploads", "disconnect_create", "disconnect_wait", "disconnect_unsub"}
 
 VARIABLES
   cfgNow,    \* the configuration is available when listen() is called (no Deferred to wait for)
   fault,     \* the fault the environment will inject in this run
-  step,      \* "idle" | "config" | "create" | "wait" | "done" | "failed"
+  step,      \* "idle" | "config" | "create" | "wait" | "unsub" | "done" | "failed"
+  pendOut,   \* the outcome of the descriptor wait, delivered once the HS_DESC subscription has been given up ("" | "port" | "uploads")
   localOpen, \* a local listener is open
   loop,      \* it was bound on the loopback interface
   asked,     \* the creation command has been written (with the mapping public -> 127.0.0.1:<bound port>)
@@ -25,16 +26,16 @@ VARIABLES
   nres,      \* times the result fired
   stopped    \* stopListening() was called on the returned port object
 
-vars == <<cfgNow, fault, step, localOpen, loop, asked, exists, result, why, nres, stopped>>
+vars == <<cfgNow, fault, step, pendOut, localOpen, loop, asked, exists, result, why, nres, stopped>>
 
-Init == /\ cfgNow \in BOOLEAN /\ fault \in Faults /\ (cfgNow => fault # "config") /\ step = "idle" /\ localOpen = FALSE /\ loop = FALSE /\ asked = FALSE /\ exists = FALSE
+Init == /\ cfgNow \in BOOLEAN /\ fault \in Faults /\ (cfgNow => fault # "config") /\ step = "idle" /\ pendOut = "" /\ localOpen = FALSE /\ loop = FALSE /\ asked = FALSE /\ exists = FALSE
         /\ result = "p" /\ why = "" /\ nres = 0 /\ stopped = FALSE
 
 Fail(w) == result' = "err" /\ why' = w /\ nres' = nres + 1 /\ step' = "failed"
 
 \* an invalid combination of options is refused when the endpoint is built: nothing is started
 Refuse == /\ step = "idle" /\ fault = "invalid" /\ Fail("invalid")
-          /\ UNCHANGED <<cfgNow, fault, localOpen, loop, asked, exists, stopped>>
+          /\ UNCHANGED <<cfgNow, fault, pendOut, localOpen, loop, asked, exists, stopped>>
 
 \* once the configuration is there the local listener is bound and the creation command goes out,
 \* all in one reactor turn
@@ -43,12 +44,12 @@ Proceed ==
      ELSE IF fault = "bind" THEN Fail("bind") /\ UNCHANGED <<localOpen, loop, asked>>
      ELSE /\ localOpen' = TRUE /\ loop' = TRUE /\ asked' = TRUE /\ step' = "create"
           /\ UNCHANGED <<result, why, nres>>
-  /\ UNCHANGED <<cfgNow, fault, exists, stopped>>
+  /\ UNCHANGED <<cfgNow, fault, pendOut, exists, stopped>>
 
 \* listen(factory) is called; the configuration may be a Deferred still pending
 Listen == /\ step = "idle" /\ fault # "invalid"
           /\ IF cfgNow THEN Proceed
-             ELSE step' = "config" /\ UNCHANGED <<cfgNow, fault, localOpen, loop, asked, exists, result, why, nres, stopped>>
+             ELSE step' = "config" /\ UNCHANGED <<cfgNow, fault, pendOut, localOpen, loop, asked, exists, result, why, nres, stopped>>
 
 \* the configuration becomes available (or fails)
 ConfigReady == step = "config" /\ Proceed
@@ -58,30 +59,39 @@ CreateReply ==
   /\ step = "create" /\ fault \notin {"disconnect_create"}
   /\ IF fault = "reject" THEN Fail("reject") /\ localOpen' = FALSE /\ UNCHANGED exists
      ELSE exists' = TRUE /\ step' = "wait" /\ UNCHANGED <<localOpen, result, why, nres>>
-  /\ UNCHANGED <<cfgNow, fault, loop, asked, stopped>>
+  /\ UNCHANGED <<cfgNow, fault, pendOut, loop, asked, stopped>>
 
-\* the control connection is lost while the creation command / the descriptor wait is outstanding
+\* the control connection is lost while the creation command / the descriptor wait / the final
+\* unsubscription is outstanding
 Disconnect ==
   /\ \/ step = "create" /\ fault = "disconnect_create"
      \/ step = "wait" /\ fault = "disconnect_wait"
+     \/ step = "unsub" /\ fault = "disconnect_unsub"
   /\ Fail("disconnect") /\ localOpen' = FALSE
-  /\ UNCHANGED <<cfgNow, fault, loop, asked, exists, stopped>>
+  /\ UNCHANGED <<cfgNow, fault, pendOut, loop, asked, exists, stopped>>
 
-\* the descriptor wait ends: one upload confirmed, or every upload failed
+\* the descriptor wait ends: one upload confirmed, or every upload failed.  The HS_DESC subscription is given
+\* up (a control-port exchange) before the outcome is delivered
 WaitOver ==
   /\ step = "wait" /\ fault # "disconnect_wait"
-  /\ IF fault = "uploads" THEN Fail("uploads") /\ localOpen' = FALSE
+  /\ step' = "unsub" /\ pendOut' = IF fault = "uploads" THEN "uploads" ELSE "port"
+  /\ UNCHANGED <<cfgNow, fault, localOpen, loop, asked, exists, result, why, nres, stopped>>
+
+\* Tor acknowledges the unsubscription
+UnsubAck ==
+  /\ step = "unsub" /\ fault # "disconnect_unsub"
+  /\ IF pendOut = "uploads" THEN Fail("uploads") /\ localOpen' = FALSE
      ELSE result' = "port" /\ nres' = nres + 1 /\ step' = "done" /\ UNCHANGED <<localOpen, why>>
-  /\ UNCHANGED <<cfgNow, fault, loop, asked, exists, stopped>>
+  /\ UNCHANGED <<cfgNow, fault, pendOut, loop, asked, exists, stopped>>
 
 StopListening ==
   /\ step = "done" /\ ~stopped /\ stopped' = TRUE /\ localOpen' = FALSE
-  /\ UNCHANGED <<cfgNow, fault, step, loop, asked, exists, result, why, nres>>
+  /\ UNCHANGED <<cfgNow, fault, step, pendOut, loop, asked, exists, result, why, nres>>
 
 \* descriptor events of another onion service on the same Tor arrive: nothing changes for this listen()
 Foreign == UNCHANGED vars
 
-Next == Foreign \/ Refuse \/ Listen \/ ConfigReady \/ CreateReply \/ Disconnect \/ WaitOver \/ StopListening
+Next == Foreign \/ Refuse \/ Listen \/ ConfigReady \/ CreateReply \/ Disconnect \/ WaitOver \/ UnsubAck \/ StopListening
 Spec == Init /\ [][Next]_vars
 
 ----------------------------------------------------------------------------
@@ -92,8 +102,8 @@ AskedAfterBind == asked => loop
 ResolvesLast == result = "port" => exists /\ step = "done"
 \* C17: a failure reports the injected fault and leaves no local listener open
 NoLeak == result = "err" => ~localOpen
-FailureIsInjected == result = "err" => why = (IF fault \in {"disconnect_create", "disconnect_wait"} THEN "disconnect" ELSE fault)
+FailureIsInjected == result = "err" => why = (IF fault \in {"disconnect_create", "disconnect_wait", "disconnect_unsub"} THEN "disconnect" ELSE fault)
 Once == nres <= 1
 StopCloses == stopped => ~localOpen
-TypeOK == step \in {"idle", "config", "create", "wait", "done", "failed"}
+TypeOK == step \in {"idle", "config", "create", "wait", "unsub", "done", "failed"}
 =============================================================================
